@@ -93,7 +93,7 @@ func initDerivedLeaves() {
 }
 
 var tLeaves = []tLeaf{
-	{"null", false, true, true, false}, {"dnilp", false, true, true, false}, {"dnd", false, true, true, false}, {"fnd()", false, true, true, false}, {".5", true, false, true, false}, {".0", false, false, true, false}, {"missing", false, true, true, false}, {"dnil", false, true, true, false},
+	{"null", false, true, true, false}, {"dnilp", false, true, true, false}, {"dnd", false, true, true, false}, {"fnd()", false, true, true, false}, {"fnp()", false, true, true, false}, {"fnm()", false, true, true, false}, {"dnpm.p", false, true, true, false}, {".5", true, false, true, false}, {".0", false, false, true, false}, {"missing", false, true, true, false}, {"dnil", false, true, true, false},
 	{"false", false, false, true, false}, {"true", true, false, true, false},
 	{"0", false, false, true, false}, {"(0*-1)", false, false, true, false}, {"0.0", false, false, true, false}, {"0e5", false, false, true, false}, {"dz", false, false, true, false},
 	{"df0", false, false, true, false}, {"dnegz", false, false, true, false}, {"dnan", false, false, true, false}, {"(0/0)", false, false, true, false},
@@ -110,7 +110,8 @@ type tStruct struct{ A int }
 
 func c06Data(log *[]string) map[string]interface{} {
 	return map[string]interface{}{
-		"dnilp": (*int)(nil), "dnil": nil, "dnd": (*decimal.Big)(nil), "fnd": func() (*decimal.Big, error) { return nil, nil }, "dz": 0, "df0": 0.0, "dnegz": math.Copysign(0, -1), "dnan": math.NaN(), "dinf": math.Inf(1), "dninf": math.Inf(-1),
+		"dnilp": (*int)(nil), "dnil": nil, "dnd": (*decimal.Big)(nil), "fnd": func() (*decimal.Big, error) { return nil, nil }, "fnp": func() (*tStruct, error) { return nil, nil }, "fnm": func() (*map[string]interface{}, error) { return nil, nil },
+		"dnpm": map[string]interface{}{"p": (*tStruct)(nil)}, "dz": 0, "df0": 0.0, "dnegz": math.Copysign(0, -1), "dnan": math.NaN(), "dinf": math.Inf(1), "dninf": math.Inf(-1),
 		"dtiny": decimal.New(1, 500), "dbig": decimal.New(7, -500), "di7": int64(7), "des": "", "ds": "str", "darr": []interface{}{1, "x"}, "dearr": []interface{}{}, "dm": map[string]interface{}{"k": 1}, "dem": map[string]interface{}{},
 		"dt": time.Unix(1700000000, 0).UTC(), "dzt": time.Time{}, "dnow": time.Now(), "fzt": func() (time.Time, error) { return time.Time{}, nil }, "dems": []string{}, "dfn": func() (int, error) { return 1, nil }, "dst": tStruct{3}, "dpst": &tStruct{4},
 		"rec": func(tag string) (string, error) { *log = append(*log, tag); return tag, nil },
